@@ -9,11 +9,27 @@ Proved part (Props/C18.v over Model/PytreeReg.v, T-tied by tools/translate/pytre
 Tested part (numerical tests, never counted as theorems):
   routes     for EVERY operator class of the package (fail closed when a class has no instance) and the
              composites: eager vs jax.jit over a closure vs equinox.filter_jit with the operator as argument
-             (boolean-mask operators excluded, as the property says) vs unflatten(flatten(op)); values
-             bit-for-bit where the arithmetic is exact, shapes, dtypes, structures; both x64 modes (x64-on in
-             a worker subprocess)
-Oracle (independent of the Coq model): the round-tripped object has the same attributes / structures /
-action; the four execution routes agree.
+             (boolean-mask operators excluded, as the property says) vs unflatten(flatten(op)) vs as_matrix vs
+             eval_shape; values bit-for-bit where the arithmetic is exact, shapes, dtypes, structures; both x64
+             modes (worker subprocesses).  The routes are run in several ORDERS on one object and on fresh
+             equal objects (eager first then traced; jit / eval_shape / as_matrix / jit-as-argument FIRST then
+             eager; jit twice; round trip of an object that was already traced), and - in the x64-on worker
+             processes - with the traced route as the first use of the class in the process: hidden per-object
+             or per-process state (cached_property, lru_cache, lazily computed attributes) only shows in
+             sequences.
+  variants   for every array-typed field of every operator class the instance table must contain the 0-d,
+             1-element, rank >= 2, integer- and float-typed (and, for scalars, Python-number) variants (fail
+             closed, `coverage` case; a variant may only be exempted by a constructor call that raises):
+             Python-level conversions of a field inside mv (int(), float(), bool(), .item(), np.asarray) only
+             fail when the field is a tracer, i.e. under the jit-as-argument route, and often only for one
+             rank / dtype of the field.
+  static     (`static` case, fail closed) scans of tools/translate/pytreereg.py: no operator class (furax part
+             of the MRO, and the modules defining them) carries state besides its dataclass fields - caches,
+             attribute writes outside the constructor, mutable class / module attributes; and no code
+             reachable from mv / as_matrix / __call__ converts a traced array field at Python level.
+Oracle (independent of the Coq model; the reference is eager application of the same instance, and for
+as_matrix NumPy's float64 product of the matrix with the flattened input): the round-tripped object has the
+same attributes / structures / action; every route in every order agrees with eager.
 """
 from __future__ import annotations
 
@@ -1128,8 +1144,13 @@ class Check(PropertyCheck):
         'agrees with eager)',
         'equinox.filter_jit = jit that traces exactly the array leaves of non-static fields (may_be_traced), compared '
         'with jax.tree_util.tree_flatten_with_path on every instance (partition cases)',
-        'correspondence harness harness/c18.py (case generators, the two printers of one case description, the x64 '
+        'correspondence harness harness/c18.py (case generators, the two printers of one case description, the '
         'worker subprocess protocol)',
+        'route sequences, parameter variants and the static scans (hidden state, Python-level conversions) are '
+        'implementation-side checks: the Coq model has no notion of tracing, so their reference is eager application of the '
+        'same instance (and NumPy float64 matrix-vector product for as_matrix); the static scans are syntactic (class dicts, '
+        'method ASTs reachable from mv through self.<name>; helper functions at module level are not followed) and '
+        'complement, not replace, the dynamic sequences',
     ]
 
     def __init__(self, tier, seed):
@@ -1280,10 +1301,10 @@ class Check(PropertyCheck):
         return cases
 
     def cases(self):
-        cases = self.reg_cases() + self.route_cases()
+        # the static scans and the coverage requirements first: their replays are the most informative
+        cases = [{'kind': 'static', 'x64': x64_mode()}, {'kind': 'coverage', 'x64': x64_mode()}]
+        cases += self.reg_cases() + self.route_cases()
         cases += [{'kind': 'config', 'throw': t, 'options': o, 'x64': False} for t in (False, True) for o in (False, True)]
-        cases.append({'kind': 'coverage', 'x64': x64_mode()})
-        cases.append({'kind': 'static', 'x64': x64_mode()})
         # landscapes under x64 as well (action: full/normal/world2index in float64)
         for c in [c for c in cases if c['kind'] == 'reg'][:: (9 if self.tier == 'quick' else 2)]:
             if c['cls'] in ('HealpixLandscape', 'FrequencyLandscape'):
@@ -1299,9 +1320,15 @@ class Check(PropertyCheck):
             'domains that include invalid values (None, str, tuples, negative), every calling convention (positional, '
             'keyword, mixed, too many, unexpected, duplicated, missing) + seeded random argument lists; each is '
             'constructed, flattened and unflattened by JAX and by the model. routes: one or more instances of EVERY '
-            'operator class and composite (the class coverage is checked against the package, fail closed) x '
-            '{x64 off/f32, x64 on/f64, x64 on/f32} x {eager, __call__, jit over a closure, equinox.filter_jit with the '
-            'operator as argument (not for boolean-mask operators), unflatten(flatten(op)) eager and jitted}. '
+            'operator class and composite (the class coverage is checked against the package, fail closed), with the 0-d / '
+            '1-element / rank-2 / integer / float / Python-scalar variants of every array-typed field (variant coverage '
+            'checked against the regenerated field table, fail closed) x {x64 off/f32, x64 on/f64, x64 on/f32} x {eager, '
+            '__call__, jit over a closure, equinox.filter_jit with the operator as argument (not for boolean-mask operators), '
+            'unflatten(flatten(op)) eager and jitted, eval_shape, as_matrix} in several orders on the same object and on fresh '
+            'equal objects (eager-first; jit-first then eager, second jit, filter_jit, round trip; eval_shape-first; '
+            'as_matrix-first; jit-as-argument-first; eager again and a second jit on the first object), traced-first being the '
+            'first use in the process for the x64-on/f64 cases. static: scans of the class dicts / method ASTs for state '
+            'besides the dataclass fields and for Python-level conversions of traced fields. '
             'Distinct by canonical JSON of the case.'
         )
 
